@@ -501,3 +501,26 @@ def check(ctx):
     check_raise_args(ctx)
     check_debug(ctx)
     check_authorize(ctx)
+    check_stateless(ctx, 'C07.STATELESS')
+
+
+def check_stateless(ctx, rule):
+    """What enforce returns or raises depends on this call's arguments and
+    the rule store only: the decision side keeps nothing between calls and
+    leaves what it is given as it found it."""
+    from ..enforce_model import decision_side_effects, decision_region
+    prog = ctx.prog
+    effs = decision_side_effects(prog)
+    for f, e, why in effs:
+        ctx.ob(rule, False, ctx.where(f.module, e.node), f.qual,
+               U(e.node)[:80],
+               'the decision side %s: a later call (or the same request '
+               'object seen again) can be decided on what an earlier call '
+               'left behind instead of on its own arguments' % why)
+    if not effs:
+        enf = prog.func(POLICY + '.Enforcer.enforce')
+        ctx.ob(rule, True, ctx.where(enf.module, enf.node), enf.qual,
+               'side effects of the decision region (%d functions)' % len(
+                   decision_region(prog)),
+               'none besides the system_scope mirror: nothing is kept '
+               'between calls and arguments are not modified')
